@@ -166,3 +166,24 @@ CHECKS["C08"] = dict(
         dict(name="converge", test="TestConverge", kind="rapid", checks={"quick": 2500, "thorough": 100000}, shards=16, timeout={"quick": 600, "thorough": 3000}),
     ],
 )
+
+CHECKS["C16"] = dict(
+    pkg="c16", level="exploration",
+    rule=("rapid-generated histories (1..25 steps) against the real svcDiscoveryClient over a scripted stream factory: Subscribe/Unsubscribe "
+          "of 1..4 names out of 24, bursts of 10..60 calls (more than the two 16-entry queues), stream creation failing 1..3 times, server "
+          "down until brought up (also from the start), the j-th Send of the next stream failing (j=0: the snapshot itself), Recv failing, "
+          "yields. The client's run loop is driven by the harness (run() in a loop = Run minus its ~1 s back-off); a second part uses the "
+          "real Run. Calls are issued sequentially from one caller goroutine, like the dependency hook. The scripted stream mimics gRPC "
+          "(after a failed Send, Recv fails too). Oracle: after the last change all faults are cleared; every call must return and the "
+          "fold of the current stream's requests (subscribe minus unsubscribe, per request in order; a name in both lists of one request is "
+          "ambiguous and accepted either way) must equal the dependency set within the hang deadline (15 s; a goroutine parked in "
+          "Subscribe's channel send while the run loop waits for the lock in two dumps 1 s apart ends the wait early) and stay equal after a "
+          "quiet period. Non-trivial: more than 16 changes were issued while no stream was up, or a Send failure hit the snapshot or the "
+          "first batch. Distinct by canonical JSON."),
+    assumptions=["Subscribe/Unsubscribe are called from one goroutine (the dependency hook), as in production",
+                 "the order of a subscribe and an unsubscribe of the same name inside one request is undefined by the wire format"],
+    parts=[
+        dict(name="discovery", test="TestDiscovery", kind="rapid", checks={"quick": 400, "thorough": 20000}, shards=16, timeout={"quick": 900, "thorough": 3000}, shrinktime="60s"),
+        dict(name="discovery-realrun", test="TestDiscoveryRealRun", kind="rapid", checks={"quick": 4, "thorough": 60}, shards=8, timeout={"quick": 900, "thorough": 3000}, shrinktime="60s"),
+    ],
+)
